@@ -29,6 +29,22 @@ def table():
     return _TABLE
 
 
+_ALPHA_NOTES = []
+
+
+def apply_alpha():
+    """annotations follow renamed locals (pyvc/alpha.py); once per process, after contracts and sources are loaded"""
+    global _ALPHA_DONE
+    if globals().get('_ALPHA_DONE'):
+        return
+    _ALPHA_DONE = True
+    from . import alpha
+    try:
+        _ALPHA_NOTES.extend(alpha.apply(table(), SPECS, os.path.join(HERE, 'baseline', 'locals.json')))
+    except Exception as e:  # never let the convenience break a check
+        _ALPHA_NOTES.append(f'alpha-renaming of annotations skipped: {type(e).__name__}: {e}')
+
+
 def load_contracts():
     import contracts  # noqa: F401  (registers everything in SPECS)
 
@@ -149,8 +165,12 @@ def check_property(pid, tier):
     if both and os.environ.get('PYVC_DIFFERENTIAL', '1') != '0':
         # thorough: CPython differential cross-check of the verifier on solver-generated entry states (pyvc/differential.py)
         jobs += [('diff', q, c) for q, c in tasks_for(pid)]
+    # longest tasks first (durations remembered in the baseline file): shortens the tail of the 16-process pool
+    secs = (load_baseline(pid) or {}).get('task_seconds', {})
+    jobs.sort(key=lambda j: -secs.get(f'{j[1]}@{j[2]}', 1e9 if j[0] == 'task' else 0) if j[0] in ('task', 'diff') else 0)
     nproc = int(os.environ.get('PYVC_PROCS', '16'))
     table()
+    apply_alpha()
     if nproc > 1 and len(jobs) > 1:
         ctx = mp.get_context('fork')
         with ctx.Pool(min(nproc, len(jobs))) as pool:
@@ -178,6 +198,7 @@ def check_property(pid, tier):
                     canaries += 1
             loops |= set(res.get('loops', []))
             notes |= set(res.get('notes', []))
+            notes |= set(_ALPHA_NOTES)
             for r in res['results']:
                 if pid in r.get('props', []):
                     results.append(r)
@@ -339,6 +360,7 @@ def write_evidence(pid, tier, results, functions, loops, notes, canaries, solver
                 'disagreed': sum(len(d_['disagreed']) for d_ in diffs),
                 'clauses_true_natively': sum(d_.get('clauses_true', 0) for d_ in diffs),
                 'clauses_not_evaluable_natively': sum(d_.get('not_evaluable', 0) for d_ in diffs),
+                'inconclusive_exception_inside_another_real_object': sum(d_.get('inconclusive_neighbour_raised', 0) for d_ in diffs),
                 'entry_states_not_legal_natively': sum(d_.get('entry_not_legal_natively', 0) for d_ in diffs),
                 'not_replayable': sum(d_['not_replayable'] for d_ in diffs),
                 'without_samples': [d_['task'] + (': ' + d_['note'] if d_.get('note') else '') for d_ in diffs if not d_['samples']][:40],
@@ -392,19 +414,23 @@ def write_baseline(pid):
     load_contracts()
     jobs = [('task', q, c, False) for q, c in tasks_for(pid)]
     table()
+    from . import alpha
+    alpha.record(table(), SPECS, os.path.join(HERE, 'baseline', 'locals.json'))
     ctx = mp.get_context('fork')
     with ctx.Pool(min(16, max(1, len(jobs)))) as pool:
         outs = pool.map(_run_one, jobs, chunksize=1) if jobs else []
-    tasks, allnames = {}, []
+    tasks, allnames, task_seconds = {}, [], {}
     for job, (kind, res) in zip(jobs, outs):
         if kind != 'task':
             continue
+        task_seconds[f"{job[1]}@{job[2]}"] = round(res.get('seconds', 0), 1)
         names = sorted({r['name'] for r in res['results'] if r['status'] == 'proved' and pid in r.get('props', [])})
         tasks[f"{res['contract']}@{res['cls']}"] = names
         allnames += names
     d = os.path.join(HERE, 'baseline')
     os.makedirs(d, exist_ok=True)
-    json.dump({'property': pid, 'files': file_hashes(), 'tasks': tasks, 'all': sorted(set(allnames))},
+    json.dump({'property': pid, 'files': file_hashes(), 'tasks': tasks, 'all': sorted(set(allnames)),
+               'task_seconds': task_seconds},
               open(os.path.join(d, f'{pid}.json'), 'w'), indent=1)
     print(f'baseline for {pid}: {len(set(allnames))} discharged obligations in {len(tasks)} tasks')
     return 0
